@@ -1,0 +1,13 @@
+//go:build verif
+
+package autocomplete
+
+// Contracts for the goverif VC generator (/verif). Comment-only file: it adds no code.
+
+// ---- C34: the execution gate of dynamic autocompletion -----------------------------------------------
+// The command line typed so far is executed only if the flag asks for it AND the tokenizer judged
+// the line safe (abstracted closure; call-site assertion on the real control flow).
+//@ func matchDynamic$1 [C34]
+//@   scope functional
+//@   check none
+//@   at call (*Fork).Execute#1 assert f.ExecCmdline && !act.ParsedTokens.Unsafe
